@@ -564,6 +564,34 @@ class PoolTheory(Theory):
             if isinstance(v, DictV):
                 return [(st, IterV(self.key_iter(v, reverse=True)))]
             raise Unsupported("reversed() of " + type(v).__name__)
+        if name in ("max", "min") and len(pos_d) == 2 and all(isinstance(x, IntV) for x in pos_d):
+            a_, b_ = pos_d[0].t, pos_d[1].t
+            return [(st, IntV(z3.If(a_ >= b_, a_, b_) if name == "max" else z3.If(a_ <= b_, a_, b_)))]
+        if name == "list":
+            if not pos:
+                return self.empty_list(st, fr, getattr(fr, "hint", None))
+            it = self.iter_of(st, fr, pos[0], node)
+            if it is None or not hasattr(it, "seq") or it.desc != "keys":
+                raise Unsupported("list() of " + type(pos_d[0]).__name__)
+            for f_ in it.facts:
+                st.assume(f_)
+            lay = IntL() if it.seq.sort().range() == I else RefL()
+            return [(st, SeqV(it.count, [it.seq], lay, mutable=True))]
+        if name == "next":
+            it = pos_d[0].it if isinstance(pos_d[0], IterV) else None
+            if it is None:
+                raise Unsupported("next() of " + type(pos_d[0]).__name__)
+            out = []
+            for f_ in it.facts:
+                st.assume(f_)
+            for s, b in ip.branch(st, it.count > 0, "next"):
+                if b:
+                    out.append((s, it.item(z3.IntVal(0))))
+                elif len(pos) > 1:
+                    out.append((s, pos[1]))
+                else:
+                    out.append((s, Exit(Exit.RAISE, ExcV("StopIteration", []))))
+            return out
         if name == "enumerate":
             it = self.iter_of(st, fr, pos[0], node)
             if it is None:
